@@ -205,10 +205,16 @@ def tree_stream(h, res, rng, n, depth, builtin_names):
         if m != exp:
             rt_model_bad += 1
             first = first or ("model round trip", tx, m)
-        if im != exp and im == m:
+        if im != exp:
             rt_impl_bad += 1
+            if rt_impl_bad <= 3:
+                res.violation("the parser does not build the tree that the text denotes under the fixed table",
+                              {"kind": "impl-law", "law": "parse(rendering of t under spec_table) == t",
+                               "program": tx, "observed": im, "expected": exp,
+                               "rerun": "./check C10 --replay <this file>"})
     st = res.streams["PARSE-tree"]
     st.update({"renderer_twin_mismatches": twin_bad, "model_roundtrip_failures": rt_model_bad,
+               "impl_roundtrip_failures": rt_impl_bad,
                "node_histogram": dict(sorted(tg.hist.items())),
                "text_bytes_max": max(len(x) for x in texts if x is not None)})
     if twin_bad:
@@ -218,6 +224,106 @@ def tree_stream(h, res, rng, n, depth, builtin_names):
         res.tie_broken("the model does not recover %d rendered trees (contradicts C10_pratt_roundtrip_all: "
                        "generator produced a tree outside wf?)" % rt_model_bad, repr(first))
     return tg, meta, len(cases) - st["mismatches"]
+
+
+def small_trees():
+    """every ordered pair of binary operators in both shapes, and every unary / postfix operator
+    above and below every binary operator (exhaustive; gives minimal failing inputs)"""
+    a, b, cc, f, i = ("id", "a"), ("id", "b"), ("id", "c"), ("id", "f"), ("id", "i")
+    out = []
+    for o1 in g.BINOPS:
+        for o2 in g.BINOPS:
+            out.append(("bin", o1, ("bin", o2, a, b), cc))
+            out.append(("bin", o1, a, ("bin", o2, b, cc)))
+    wraps = [lambda x: ("un", "Negate", x), lambda x: ("un", "Not", x), lambda x: ("fact", x),
+             lambda x: ("call", x, [i]), lambda x: ("idx", x, i), lambda x: ("dot", x, "fld")]
+    for o in g.BINOPS:
+        for w in wraps:
+            out.append(w(("bin", o, a, b)))
+            out.append(("bin", o, w(a), b))
+            out.append(("bin", o, a, w(b)))
+    for w1 in wraps:
+        for w2 in wraps:
+            out.append(w1(w2(a)))
+    return out
+
+
+def small_search(h, res):
+    """Implementation only, exhaustive: minimal text == fully parenthesised text == the tree."""
+    trees = small_trees()
+    lines, plines = [], []
+    for t in trees:
+        base = g.Renderer({}, 0, set()).render(t)
+        full = g.Renderer({}, 1, set()).render(t)
+        lines.append(c.hexs(base) + "\t" + c.hexs(full))
+        plines.append(c.hexs(base))
+    eq = c.harness_lines_resilient(h, "parse10eq", lines)
+    ps = c.harness_lines_resilient(h, "parse10", plines)
+    viol = 0
+    for t, o, pp in zip(trees, eq, ps):
+        base = g.Renderer({}, 0, set()).render(t)
+        exp = "E " + g.show(t)
+        if o != "SAME" or pp != exp:
+            viol += 1
+            if viol <= 3:
+                res.violation("an expression and its fully parenthesised form under the fixed table parse differently",
+                              {"kind": "impl-law", "law": "AST(minimal) == AST(fully parenthesised) == the tree",
+                               "base": base, "variant": g.Renderer({}, 1, set()).render(t),
+                               "observed": o, "expected": "SAME", "observed_ast_of_base": pp,
+                               "expected_ast_of_base": exp, "rerun": "./check C10 --replay <this file>"})
+    res.streams["SEARCH-small"] = {"trees": len(trees), "exhaustive": True, "violations": viol}
+    return 2 * len(trees)
+
+
+def small_layout_search(h, res):
+    """Implementation only, exhaustive: every single layout gap of a set of small programs filled with
+    every filler the grammar admits there (gives minimal failing inputs for layout changes)."""
+    a, b, cc = ("id", "a"), ("id", "b"), ("id", "c")
+    trees = [("bin", o, a, b) for o in g.BINOPS]
+    trees += [("bin", "Add", a, ("bin", "Multiply", b, cc)), ("bin", "NotEqual", ("fact", a), b),
+              ("un", "Not", a), ("un", "Negate", a), ("fact", a),
+              ("call", ("id", "f"), []), ("call", ("id", "f"), [a]), ("call", ("id", "f"), [a, ("spread", b)]),
+              ("idx", a, b), ("dot", a, "fld"), ("list", [a]), ("list", [a, b, ("spread", cc)]),
+              ("rec", [("static", "k", a)]), ("rec", [("static", "k", a), ("short", "b", None),
+                                                        ("dyn", b, cc), ("spread", ("spread", cc), None)]),
+              ("lam", [], a), ("lam", [("req", "x")], ("bin", "NaturalAnd", ("id", "x"), b)),
+              ("lam", [("req", "x"), ("opt", "y")], a), ("cond", a, b, cc), ("assign", "x", ("bin", "Add", a, b)),
+              ("do", [("assign", "x", a), b], ("id", "x")), ("do", [], a)]
+    lines, info = [], []
+    for t in trees:
+        for wn in (set(), {()}):
+            if wn and not (t[0] == "un" and t[1] == "Not"):
+                continue
+            for par in ({}, {(): 1}, {(0,): 1}):
+                r = g.Renderer(par, 0, wn)
+                parts = r.parts(t)
+                base = g.fill(parts, None)
+                gaps = [k for k, x in enumerate(parts) if isinstance(x, g.Gap)]
+                for k in gaps:
+                    for f in (g.FILL.get(parts[k].kind) or g.EXTRA_FILL[parts[k].kind]):
+                        v = "".join((f if j == k else (x.canon if isinstance(x, g.Gap) else x))
+                                    for j, x in enumerate(parts))
+                        if v != base:
+                            lines.append(c.hexs(base) + "\t" + c.hexs(v))
+                            info.append((base, v, parts[k].kind))
+    outs = c.harness_lines_resilient(h, "parse10eq", lines)
+    viol = known = 0
+    kinds = {}
+    for (base, v, kind), o in zip(info, outs):
+        kinds[kind] = kinds.get(kind, 0) + 1
+        if o == "SAME":
+            continue
+        if o == "REJECT-B" and text_in_bang_class(v) and not text_in_bang_class(base) and bang_open(res):
+            known += 1
+            continue
+        viol += 1
+        if viol <= 3:
+            res.violation("optional layout changes the parsed program (%s gap: %s)" % (kind, o),
+                          {"kind": "impl-law", "law": "AST(base) == AST(variant)", "base": base, "variant": v,
+                           "observed": o, "expected": "SAME", "rerun": "./check C10 --replay <this file>"})
+    res.streams["SEARCH-layout-small"] = {"pairs": len(lines), "exhaustive": True, "gap_kinds": kinds,
+                                          "known_bang_equals": known, "violations": viol}
+    return len(lines)
 
 
 def search_stream(h, res, rng, meta, layouts_per_tree):
@@ -463,18 +569,26 @@ def main(argv):
     try:
         h = c.build_harness()
         builtin_names = c.regen_builtins(h)
-        info = regen_prec(h)
     except c.BrokenTie as e:
         res.tie_broken(e.what, e.detail)
         return res.finish()
     if replay:
         return do_replay(h, replay)
-    res.streams["translator"] = info
+    model_ok = True
+    try:
+        info = regen_prec(h)
+        res.streams["translator"] = info
+    except c.BrokenTie as e:
+        # the table / glue can no longer be read: no model run; go on to the searches on the
+        # implementation alone to look for a concrete failing input
+        res.tie_broken(e.what, e.detail)
+        model_ok = False
     bad_ids = [x for x in g.IDENTS if x in builtin_names]
     if bad_ids:
         res.tie_broken("generator identifiers collide with built-in names", ",".join(bad_ids))
 
-    c.proof_step(res, PID)
+    if model_ok:
+        model_ok = c.proof_step(res, PID) or True
 
     bad = spelling_arms_shared()
     if bad:
@@ -484,18 +598,29 @@ def main(argv):
     evaluations = 0
     validated = 0
     evaluations += corpus_stream(h, res)
-    # ---- FLAT: exhaustive operator sequences, model vs implementation
-    fc = flat_cases(tier, rng)
-    r = run_stream(h, res, "PARSE-flat", fc)
-    if r:
-        evaluations += len(fc)
-        validated += len(fc) - res.streams["PARSE-flat"]["mismatches"]
-    # ---- TREE: random deep trees, rendered by the model, round trip + model vs implementation
     ntree = 1500 if tier == "quick" else 20000
-    tg, meta, ok = tree_stream(h, res, rng, ntree, 5, builtin_names)
-    evaluations += len(meta)
-    validated += ok
+    fc = []
+    if model_ok:
+        # ---- FLAT: exhaustive operator sequences, model vs implementation
+        fc = flat_cases(tier, rng)
+        r = run_stream(h, res, "PARSE-flat", fc)
+        if r:
+            evaluations += len(fc)
+            validated += len(fc) - res.streams["PARSE-flat"]["mismatches"]
+        # ---- TREE: random deep trees, rendered by the model, round trip + model vs implementation
+        tg, meta, ok = tree_stream(h, res, rng, ntree, 5, builtin_names)
+        evaluations += len(meta)
+        validated += ok
+    else:
+        tg = g.TreeGen(rng)
+        meta = []
+        for _ in range(ntree):
+            t = tg.tree(1 + rng.below(5))
+            par, wn = g.random_oracles(rng, t)
+            meta.append((t, par, wn))
     # ---- searches on the implementation alone
+    evaluations += small_search(h, res)
+    evaluations += small_layout_search(h, res)
     evaluations += search_stream(h, res, rng, meta, 2 if tier == "quick" else 4)
     evaluations += ident_stream(h, res, rng, tier, builtin_names)
     evaluations += spelling_stream(h, res, rng)
